@@ -146,7 +146,7 @@ fn plan(p: &mut Plan<'_>) {
             p.assumptions = vec!["frames are u32 tags", "abandonment only before anything is recorded (the only one reachable through PacketWriter)", "gen_ack largest is a received, still tracked packet number", "a packet declared lost whose expiry passed may be forgotten by the journal"];
         }
         "C02" => {
-            p.part(netsim::NetSim { mode: netsim::Mode::C02 }, 1500, 200_000, "full client/server runs over SimNet with a seeded fault tape (bounded = survivable, liveness judged; unbounded = safety + bounded failure); non-trivial = a fault fired and the handshake or some stream made progress; distinct = hash of the wire trace and application event trace");
+            p.part(netsim::NetSim { mode: netsim::Mode::C02 }, 4000, 300_000, "full client/server runs over SimNet with a seeded fault tape (bounded = survivable, liveness judged; unbounded = safety + bounded failure); non-trivial = a fault fired and the handshake or some stream made progress; distinct = hash of the wire trace and application event trace");
             p.assumptions = vec!["TLS key material is not seeded (Ed25519 chain keeps message sizes fixed)", "single-threaded seeded executor: task order is permuted, polls never run truly concurrently"];
         }
         "C06" => {
